@@ -3,9 +3,11 @@
   Property theorems only; helper lemmas live in MpirProofs/Lemmas/Swar.lean.  `mapB f 8 x` is Σ_{i<8} f(byte_i x)·256^i
   (the word whose byte i is f of byte i of x); `n4 b` holds in its two nibbles the bit counts of the two nibbles of b.
 
-  PROVED here: the per-limb reduction (popcount.c:53-55, shared by the block and the tail loop) for EVERY 64-bit limb:
-  field-wise action, no overflow between fields, fields add up to the limb's bit count.
-  NOT yet proved (run only, see TRUSTED of tools/props/c10_swar.py): block_eq, tail_eq, popcount_swar_eq, hamdist_swar_eq.
+  PROVED here, for EVERY 64-bit limb: the per-limb reduction (popcount.c:53-55: field-wise action, no overflow between
+  fields, fields add up to the limb's bit count), the whole 4-limb block (:53-80, block_eq, block_le_256) and the tail
+  loop's per-limb step (:96-99, tailLimb_fields).
+  NOT yet proved (run only, see TRUSTED of tools/props/c10_swar.py): the tail accumulation/folds as a whole, the outer
+  loop, hence popcount_swar_eq / hamdist_swar_eq.
 -/
 import MpirProofs.Lemmas.Swar
 namespace Mpir.Swar
